@@ -155,7 +155,10 @@ class MEvent:
 
 
 class MLock:
-    """asyncio.Lock as a ghost token"""
+    """asyncio.Lock as a ghost token of *this* task.  While this task does not hold the token some other task may
+    (that is why acquire can wait at all): locked() then answers nondeterministically - fixed between two awaits,
+    because only an await lets another task run - and a release() without the token either hits another task's
+    critical section (asyncio.Lock.release does not check ownership: recorded in `stolen`) or raises RuntimeError."""
 
     def __init__(self, world, name="lock", held=False):
         self.world = world
@@ -163,9 +166,20 @@ class MLock:
         self.held = held
         self.acquisitions = 0
         self.violations = []
+        self.stolen = 0
+        self._other = None          # (await epoch, bool): is the lock held by another task
+
+    def _held_by_another(self):
+        ep = self.world.awaits
+        if self._other is None or self._other[0] != ep:
+            c = self.world.ctx
+            self._other = (ep, bool(c.fork(c.fresh_bool("lock_held_by_another_task").e)))
+        return self._other[1]
 
     def locked(self):
-        return self.held
+        if self.held:
+            return True
+        return self._held_by_another()
 
     def acquire(self):
         def resolve():
@@ -174,12 +188,18 @@ class MLock:
                 self.violations.append("acquire while already held by this task (deadlock)")
                 raise PathEnd()
             self.held = True
+            self._other = None
             self.acquisitions += 1
             return True
         return Awaitable(resolve, "Lock.acquire")
 
     def release(self):
         if not self.held:
+            if self._held_by_another():
+                self.stolen += 1
+                self.violations.append("release of a lock held by another task")
+                self._other = (self.world.awaits, False)
+                return
             raise RaiseEx(RuntimeError("Lock is not acquired."))
         self.held = False
 
@@ -394,6 +414,11 @@ def install(interp, world):
     def m_queue_qsize(interp_, q):
         return len(q.fields.get("_delivered", []))
 
+    def m_queue_init(interp_, q, *a, **k):
+        # asyncio.Queue.__init__ reached through super().__init__() of a repo subclass
+        q.fields.setdefault("_delivered", [])
+
+    funcs[asyncio.Queue.__init__] = m_queue_init
     funcs[asyncio.Queue.put_nowait] = m_queue_put_nowait
     funcs[asyncio.Queue.qsize] = m_queue_qsize
     interp.local_class_models = table
